@@ -79,6 +79,14 @@ CHECKS = {
              "modulo ranges/ctx, and be a fixed point.",
         note="Trusted: equality on the generic Debug dumps.",
         design="§2 C11"),
+    "C12": dict(
+        technique="runtime invariant monitors on hooked traversals: counting identity Fold, counting Visitor and ConstantOptimizer compared with an independent walk / reference rewrite of the generic tree dump",
+        text="For every parsed tree (all-nodes-with-ranges build): the identity fold must reproduce the dump, the range callback must fire exactly once per range-carrying node "
+             "(multiset of ranges), the default Visitor must reach every statement/expression/pattern/handler exactly once (multiset of kind+range), the optimiser's output must "
+             "equal a bottom-up rewrite of the dump that folds only load-context all-constant tuples, and optimising twice changes nothing. A field-shape census shows which "
+             "optional fields / list lengths occurred per node kind.",
+        note="Trusted: the generic Debug dump as the independent walk; the 10-line reference rewrite.",
+        design="§2 C12"),
     "C14": dict(
         technique="exhaustive small-scope runtime differential: every signature shape is converted by the real API and compared with the structure computed from the generator's description (unique integer defaults make the history unambiguous)",
         text="All signatures within stated bounds (posonly<=1(2), args<=2, vararg, kwonly<=3, kwarg, every legal default subset, annotations, def/lambda) "
